@@ -348,28 +348,32 @@ fn probe_order(m: &AnyMap, mask: KindMask, orbit: u8) -> Vec<u8> {
         return ks.iter().map(|&k| k as u8).collect();
     }
     let run = |conflict_anchor: bool| -> Vec<(u8, u8)> {
+        // scratch cells and the merge that will be provoked:
+        //   vertex: ids 2 and 3 via 2-link(1,2) then 1-sew(1,3);
+        //   edge:   ids 1 and 2 via 2-sew(1,2) of two 1-free darts;
+        //   face:   ids 1 and 2 via 3-sew(1,2) of two isolated darts (3D).
+        let (a, b) = if orbit == 0 { (2u32, 3u32) } else { (1u32, 2u32) };
+        // the values are committed for real (and removed afterwards) so that the probe does not
+        // depend on how the storage reads its inputs; only the sew is run in a transaction that
+        // is aborted
+        for &k in &ks {
+            let (va, vb) = if kind_is_anchor(k) {
+                if conflict_anchor { ((1u64 << 33) | 1, (1u64 << 33) | 2) } else { ((1 << 33) | 1, (1 << 33) | 1) }
+            } else {
+                (1, 1)
+            };
+            m.write_attr(k, a, va);
+            m.write_attr(k, b, vb);
+        }
+        if orbit == 0 {
+            m.write_vertex(2, [0, 0, 0]);
+            m.write_vertex(3, [0, 0, 0]);
+        }
         faults::set_logging(true);
         let _r: Result<(), ()> = atomically_with_err(|t| {
             faults::begin_attempt();
-            // scratch cells and the merge that will be provoked:
-            //   vertex: ids 2 and 3 via 2-link(1,2) then 1-sew(1,3);
-            //   edge:   ids 1 and 2 via 2-sew(1,2) of two 1-free darts;
-            //   face:   ids 1 and 2 via 3-sew(1,2) of two isolated darts (3D).
-            let (a, b) = if orbit == 0 { (2u32, 3u32) } else { (1u32, 2u32) };
-            for &k in &ks {
-                let (va, vb) = if kind_is_anchor(k) {
-                    if conflict_anchor { ((1u64 << 33) | 1, (1u64 << 33) | 2) } else { ((1 << 33) | 1, (1 << 33) | 1) }
-                } else {
-                    (1, 1)
-                };
-                m.write_attr_tx(t, k, a, va)?;
-                m.write_attr_tx(t, k, b, vb)?;
-            }
             let res: TransactionClosureResult<(), ()> = match orbit {
                 0 => {
-                    // coordinates must merge too
-                    m.write_vertex_tx(t, 2, [0, 0, 0])?;
-                    m.write_vertex_tx(t, 3, [0, 0, 0])?;
                     m.link_tx(t, 2, 1, 2).map_err(|e| strip(e))?;
                     m.sew_tx(t, 1, 1, 3).map_err(|e| strip(e))
                 }
@@ -383,6 +387,14 @@ fn probe_order(m: &AnyMap, mask: KindMask, orbit: u8) -> Vec<u8> {
         });
         let log = faults::take_log();
         faults::set_logging(false);
+        for &k in &ks {
+            m.remove_attr(k, a);
+            m.remove_attr(k, b);
+        }
+        if orbit == 0 {
+            m.remove_vertex(2);
+            m.remove_vertex(3);
+        }
         log
     };
     fn strip<E>(e: TransactionError<E>) -> TransactionError<()> {
@@ -405,6 +417,11 @@ fn probe_order(m: &AnyMap, mask: KindMask, orbit: u8) -> Vec<u8> {
     order
 }
 
+thread_local! {
+    /// how often the hash order could not be forced (see build_map)
+    pub static ORDER_UNCONTROLLED: std::cell::Cell<u64> = const { std::cell::Cell::new(0) };
+}
+
 pub struct BuildInfo {
     pub tries: u32,
 }
@@ -424,7 +441,13 @@ pub fn build_map(s: &State, order: &KindOrder) -> (AnyMap, BuildInfo) {
         if ok {
             break m;
         }
-        assert!(tries < 100_000, "attribute order rejection sampling does not converge");
+        if tries >= 4_000 {
+            // the probe cannot see the requested order (possible when the code under test is
+            // broken in the merge path itself): run with whatever order this map has rather than
+            // spin; verdicts do not depend on the order, only exact replay across processes does
+            ORDER_UNCONTROLLED.with(|c| c.set(c.get() + 1));
+            break m;
+        }
     };
     if s.n() > 4 {
         m.add_free_darts(s.n() - 4);
